@@ -295,6 +295,12 @@ def generate(srcdir):
     except TranslatorError as e:
         c13_err = str(e)
 
+    # C19: login_calculate -- bytes copied from the password buffer, 32-bit words xored, bytes hashed
+    login_c = strip_comments(read(srcdir, 'login.c'))
+    C['LOGIN_COPY'] = anchored_int(login_c, r'login_calculate\s*\(.*?memcpy\s*\(\s*temp\s*,\s*pass\s*,\s*(\d+)\s*\)', 'login_calculate memcpy length', 'login.c')
+    C['LOGIN_WORDS'] = anchored_int(login_c, r'login_calculate\s*\(.*?for\s*\(\s*i\s*=\s*0\s*;\s*i\s*<\s*(\d+)\s*;\s*i\+\+\s*\)', 'login_calculate word loop bound', 'login.c')
+    C['LOGIN_MD5_LEN'] = anchored_int(login_c, r'login_calculate\s*\(.*?md5_append\s*\(\s*&ctx\s*,\s*temp\s*,\s*(\d+)\s*\)', 'login_calculate md5_append length', 'login.c')
+
     lines = []
     lines.append('(* GENERATED by tools/gen_consts.py from the repository sources on every run. DO NOT EDIT. *)')
     lines.append('From Coq Require Import List NArith.')
